@@ -668,7 +668,8 @@ func (blockchain *Blockchain) Commit() abciTypes.ResponseCommit {
 		panic(err)
 	}
 
-	{ // Persist application hash and height
+	{ // Persist application hash, height and the other records of the block in one atomic write
+		blockchain.appDB.StartBatch()
 		blockchain.appDB.SetLastBlockHash(hash)
 		blockchain.appDB.SetLastHeight(height)
 
@@ -677,6 +678,7 @@ func (blockchain *Blockchain) Commit() abciTypes.ResponseCommit {
 		blockchain.appDB.SaveVersions()
 		blockchain.appDB.SaveEmission()
 		blockchain.appDB.SavePrice()
+		blockchain.appDB.WriteBatch()
 	}
 
 	// Clear mempool
